@@ -29,7 +29,8 @@ def plan(tier, seed):
 
 
 def config_fn(rng):
-    return {"wrapper": "cvxpy", "solver": "CLARABEL", "verbose": 0, "mode": "dual"}
+    # the multipliers belong to the solve whatever value it is asked to return
+    return {"wrapper": "cvxpy", "solver": "CLARABEL", "verbose": rng.choice([0, 0, 1]), "mode": rng.choice(["dual", "dual", "primal"])}
 
 
 NAME_RE = re.compile(r"^IC_(?P<fid>.+?)_(?P<cond>[a-z_0-9]+)\((?P<pts>.*)\)$")
